@@ -7,16 +7,22 @@ from sa.h import *
 EXPLANATION = (
     "Decided (structural, all paths): (1) the UEB is parsed only after its hash was compared equal to the "
     "verify cap's uri_extension_hash; (2) hash-tree roots are seeded only from that validated UEB "
-    "(who-may-call / who-may-write); (3) Share._get_satisfaction reaches _satisfy_data_block only after the "
+    "(who-may-call / who-may-write), and ARE seeded at index 0 on every normal path (UEB roots in the parser, the block-hash "
+    "root in set_block_hash_root, which need_block_hash_root requests exactly while index 0 is missing); (3) Share._get_satisfaction reaches _satisfy_data_block only after the "
     "offset-table, UEB, share-hash, block-hash-root, block-hash and ciphertext-hash stages; (4) the COMPLETE "
     "notification is dominated by check_block on the same block inside a try whose hash-error handler does "
     "not notify COMPLETE; (5) check_block hashes its own parameter; (6) the ciphertext-hash check is "
     "registered on the decode Deferred before delivery and hashes the segment it returns; (7) the fetcher "
     "stores a block only under state COMPLETE and decodes only with >= k validated blocks; (9) offset-table "
     "sanity raises precede acceptance; (10) Segmentation writes only slices of delivered segments, starting at the "
-    "wanted offset; (8) the hash-tree rules of C35 (journaled stores, rollback, conflict checks, propagation to the "
+    "wanted offset; (11) the segment is sliced only on paths that established overlap start == wanted offset (or segment "
+    "start <= wanted offset), and the wanted offset / remaining size move by exactly len(bytes written) on every path "
+    "through the write; (8) the hash-tree rules of C35 (journaled stores, rollback, conflict checks, propagation to the "
     "root over every level) as rules C02.8.*. "
-    "Undecided: hash collision resistance, zfec algebra, Python slice arithmetic.")
+    "Undecided: hash collision resistance (this also covers hash trees of the wrong shape, i.e. set_authoritative_num_segments / "
+    "the re-sized ciphertext tree: the leaf and pair hashes carry different tags), zfec algebra, Python slice arithmetic, the "
+    "values of the offset table and block positions (a wrong position is a wrong block, which the hash checks reject), and all "
+    "liveness / retry / status bookkeeping of the fetcher.")
 
 NODE = "immutable.downloader.node:DownloadNode"
 SHARE = "immutable.downloader.share:Share"
@@ -136,6 +142,40 @@ def run(ctx: Context):
             r.site(g, c, "block-hash root source")
             r.require(val == "self._node.share_hash_tree.get_leaf(self._shnum)", g, g.loc(c),
                       "block hash root comes from %s, not from the validated share hash tree leaf of this share" % val)
+        # set_block_hash_root DOES seed index 0 of the share's block hash tree with its parameter on every normal
+        # path (an unseeded tree derives its own root from the hashes it is given and accepts any block), and
+        # need_block_hash_root is true exactly while that root is missing
+        sb = idx.func(CSHARE + ".set_block_hash_root")
+        rparam = first_positional_params(sb)[0]
+
+        def seeds_block_root(n):
+            for c in calls_at(n, "set_hashes"):
+                a0 = arg(c, 0, "hashes")
+                if call_name(c) == "self._block_hash_tree.set_hashes" and isinstance(a0, ast.Dict) \
+                        and dict_literal_keys(a0) == [0] and isinstance(a0.values[0], ast.Name) \
+                        and a0.values[0].id == rparam:
+                    return True
+            return False
+        r.site(sb, None, "block-hash root seeded on all paths")
+        for (t, w) in find_path_avoiding(sb.cfg(), lambda n: n.kind == "exit", gate_node=seeds_block_root,
+                                         kill=lambda n: bool({rparam, "self._block_hash_tree"} & node_stores(n))):
+            r.violation(sb, sb.loc(), "set_block_hash_root can return without seeding index 0 of self._block_hash_tree with "
+                        "%s: the block hash tree would then accept any block (path: %s)" % (rparam, w.brief()), w)
+        nb = idx.func(CSHARE + ".need_block_hash_root")
+        nrets = nb.cfg().find(is_return)
+        r.site(nb, None, "need_block_hash_root")
+        if not nrets:
+            raise AnchorVanished("need_block_hash_root has no return")
+        nnorm = FlowNorm(nb)
+        for n in nrets:
+            v = nnorm.resolve(n, n.ast.value) if n.ast.value is not None else None
+            while isinstance(v, ast.Call) and call_name(v) == "bool" and len(v.args) == 1:
+                v = v.args[0]
+            f = N(nb).cmp(v, True) if v is not None else None
+            ok = bool(f) and ((f[0] == "false" and f[1] == "self._block_hash_tree[0]") or
+                              (f[0] in ("is", "==") and {f[1], f[2]} == {"self._block_hash_tree[0]", "None"}))
+            r.require(ok, nb, nb.loc(n.ast), "need_block_hash_root returns %s, which is not 'index 0 of self._block_hash_tree is "
+                      "missing': the root would not be seeded before blocks are checked" % (src(nb, n.ast.value) if n.ast.value is not None else None))
         # who may call set_block_hash_root
         bad, badrefs, total = callers_outside(idx, "set_block_hash_root", [SHARE + "._get_satisfaction"])
         for cs in bad:
@@ -421,12 +461,18 @@ def run(ctx: Context):
         # return True is dominated by 0 <= (later offset - earlier offset) for both hash regions
         acc = cfg.find(returns_const(True))
         r.require(bool(acc), fn, fn.loc(), "no accepting return")
+        # the table under test is whatever is stored into self.actual_offsets (a local of any name, or the attribute)
+        bases = {"self.actual_offsets"}
+        for n in cfg.find(st):
+            v = assign_value(n, "self.actual_offsets")
+            if isinstance(v, ast.Name):
+                bases.add(v.id)
         for later, earlier in (("uri_extension", "share_hashes"), ("share_hashes", "block_hashes")):
-            want = norm_src("offsets[%r] - offsets[%r]" % (later, earlier))
+            want = {norm_src("%s[%r] - %s[%r]" % (b, later, b, earlier)) for b in bases}
 
             def sane(n, lab, _want=want):
                 f = fnorm.edge_fact(n, lab)
-                return bool(f) and f[0] == "<=" and f[1] == "0" and f[2] == _want
+                return bool(f) and f[0] == "<=" and f[1] == "0" and f[2] in _want
             for (n, w) in find_path_avoiding(cfg, returns_const(True), gate_edge=sane):
                 r.violation(fn, fn.loc(n.ast), "offset table accepted without checking %s >= %s (path: %s)" % (
                     later, earlier, w.brief()), w)
@@ -482,6 +528,95 @@ def run(ctx: Context):
             r.violation(cs.fn, cs.loc, "%s calls _got_segment directly" % short(cs.fn))
         for (f, nd) in badrefs:
             r.violation(f, f.loc(nd), "%s uses _got_segment as a callback" % short(f))
+
+    # -- 11. Segmentation: coverage guard and read-position bookkeeping -----
+    with ctx.rule("C02.11", "R1", "Segmentation._got_segment: the delivered segment is sliced only after it was established "
+                  "to start at or before the wanted offset; the wanted offset / remaining size move by exactly the "
+                  "bytes written", expected=3) as r:
+        g = idx.func("immutable.downloader.segmentation:Segmentation._got_segment")
+        gp = first_positional_params(g)
+        cfg = g.cfg()
+        fnorm = FlowNorm(g)
+        seg0, seg1 = gp[0] + "[0]", gp[0] + "[1]"
+        ov = "overlap(%s, len(%s), self._offset, self._size)" % (seg0, seg1)
+        ov0 = norm_src(ov + "[0]")
+        s0 = norm_src(seg0)
+        wnodes = [n for n in cfg.nodes if any(call_name(c).endswith("_consumer.write") for c in node_calls(n))]
+        if not wnodes:
+            raise AnchorVanished("no consumer.write in Segmentation._got_segment")
+
+        def covers(t, lab):
+            f = fnorm.edge_fact(t, lab)
+            if not f:
+                return False
+            op, l, rr = f
+            if op == "==" and {l, rr} == {ov0, "self._offset"}:
+                return True        # overlap start == wanted offset
+            if op == "<=" and ((l == s0 and rr == "self._offset") or
+                               (l == "0" and rr == norm_src("self._offset - %s" % seg0))):
+                return True        # segment start <= wanted offset
+            return False
+
+        def tgt_of(attr):
+            return ast.Attribute(value=ast.Name(id="self", ctx=ast.Load()), attr=attr, ctx=ast.Load())
+
+        def nrm_at(n, e):
+            try:
+                return fnorm.norm(n, ast.fix_missing_locations(ast.copy_location(e, n.ast)))
+            except Exception:
+                return None
+
+        def newval(n, attr):
+            """normal form of the value stored into self.<attr> at n, or None"""
+            a = n.ast
+            if isinstance(a, ast.AugAssign) and attr_path(a.target) == "self." + attr:
+                return nrm_at(n, ast.BinOp(left=tgt_of(attr), op=a.op, right=a.value)) or "?"
+            if isinstance(a, ast.Assign) and len(a.targets) == 1 and attr_path(a.targets[0]) == "self." + attr:
+                return nrm_at(n, a.value) or "?"
+            return None
+
+        for wn in wnodes:
+            wc = [c for c in node_calls(wn) if call_name(c).endswith("_consumer.write")][0]
+            wa = arg(wc, 0)
+            # the node that computes the slice
+            defn = wn
+            if isinstance(wa, ast.Name):
+                ds = [n for n in cfg.stmt_nodes() if wa.id in node_stores(n)]
+                if len(ds) == 1:
+                    defn = ds[0]
+            r.site(g, wc, "coverage guard")
+            for (t, w) in find_path_avoiding(cfg, lambda x, _d=defn: x is _d, gate_edge=covers, kill=stores("self._offset")):
+                r.violation(g, g.loc(defn.ast), "the segment is sliced at (wanted offset - segment start) on a path that never "
+                            "established that the segment starts at or before the wanted offset (overlap start == "
+                            "self._offset): a segment that begins later gives a negative index and bytes from the wrong "
+                            "place are written (path: %s)" % w.brief(), w)
+            # bookkeeping: self._offset += len(written), self._size -= len(written) on every path through the write
+            wlen = ast.Call(func=ast.Name(id="len", ctx=ast.Load()), args=[wa], keywords=[])
+            for attr, sign in (("_offset", 1), ("_size", -1)):
+                r.site(g, wc, "self.%s moves by the bytes written" % attr)
+
+                def moved(n, _attr=attr, _sign=sign):
+                    if ("self." + _attr) not in node_stores(n):
+                        return False
+                    v = newval(n, _attr)
+                    if v is None:
+                        return False
+                    op = ast.Add() if _sign > 0 else ast.Sub()
+                    want = {nrm_at(n, ast.BinOp(left=tgt_of(_attr), op=op, right=x))
+                            for x in (wlen, ast.parse(ov + "[1]", mode="eval").body)}
+                    return v in want
+                pre = find_path_avoiding(cfg, lambda x, _w=wn: x is _w, gate_node=moved)
+                post = find_path_from_to_avoiding(cfg, lambda x, _w=wn: x is _w, gate_node=moved)
+                if pre and post:
+                    r.violation(g, g.loc(wc), "bytes are written but self.%s is not moved by %slen(<bytes written>) on some path "
+                                "through the write: the next segment would be cut against a stale read position and the "
+                                "consumer would receive repeated or surplus bytes (path: %s ... %s)" % (
+                                    attr, "+" if sign > 0 else "-", pre[0][1].brief(), post[0][1].brief()), pre[0][1])
+                # no other store of the attribute in this function
+                for n in cfg.stmt_nodes():
+                    if ("self." + attr) in node_stores(n) and not moved(n) and newval(n, attr) != "self." + attr:
+                        r.violation(g, g.loc(n.ast), "self.%s becomes %s, which is not self.%s %s len(<bytes written>)" % (
+                            attr, newval(n, attr), attr, "+" if sign > 0 else "-"))
 
 
     # -- 8. hash-tree acceptance / rejection discipline (shared with C35) ----
